@@ -33,6 +33,13 @@ impl Capture {
 pub fn gen_writes(rng: &mut Rng) -> Vec<(u8, u8)> {
   let n = 1 + rng.below(24) as usize;
   (0..n).map(|_| {
+    // one write in eight goes to another device: an OAM DMA start (the CPU keeps its access to the serial port while the
+    // transfer runs), a palette, the timer modulo, a scroll register - the serial port must not care
+    if rng.chance(1, 8) {
+      let a = *rng.pick(&[0x46u8, 0x46, 0x46, 0x47, 0x06, 0x42]);
+      let v = if a == 0x46 { *rng.pick(&[0xc0u8, 0xd0, 0x80, 0x00, 0x41]) } else { rng.u8() };
+      return (a, v);
+    }
     let a = if rng.chance(1, 2) { 0x01 } else { 0x02 };
     let v = match rng.below(4) { 0 => *rng.pick(&[0x00u8, 0x7f, 0x80, 0x81, 0xff, 0x01, 0x0a, 0x41]), _ => rng.u8() };
     (a, v)
